@@ -1,7 +1,7 @@
 #!/bin/bash
 # runs every thorough command of MANIFEST.json one after another and prints wall time + last line
 cd "$(dirname "$0")"
-for id in C18 C05 C12 C13 C14 C19 C07 C04 C11 C03 C09 C16 C15 C08 C06 C02 C01; do
+for id in C18 C05 C10 C12 C13 C14 C19 C07 C04 C11 C03 C09 C16 C15 C08 C06 C02 C01; do
   s=$(date +%s)
   out=$(./check $id --tier thorough 2>&1 | grep -E "^$id:|VIOLATION" | tail -3 | cut -c1-400)
   e=$(date +%s)
